@@ -373,7 +373,10 @@ func C05ExtraConfigs(thorough bool) []*world.Config {
 
 func C13(run *report.Run) {
 	runSingle(run, "C13", C13Configs(run.Thorough()), func(*world.Config) explore.Monitor { return &c13Mon{} }, stdOps)
-	fanOut(run, "C13", multiTreePlans(run.Thorough()), func(*world.Config) explore.Monitor { return &c13Mon{} })
+	plans := multiTreePlans(run.Thorough())
+	// captures taken after a MakeRoot that failed half-way and was retried, with a cache
+	plans = append(plans, c02Plan{world.WithFlushFaults(world.UintCfg(2, urange(1, 4), 1, ref.FormatBinary, "big")), c02FailedFlushCaptures, 2, true, 0})
+	fanOut(run, "C13", plans, func(*world.Config) explore.Monitor { return &c13Mon{} })
 	run.Rule = ruleSingle + "; the state key additionally carries the base version and the set of keys modified since; oracle on every MakeRoot: stored names are reachable from the new root, nothing stored and same root when nothing was modified, no node of the base version rewritten unless a modified key lies in its range, <= (2h+2) writes per modified key (height unchanged); in every state IsDirty()==false implies contents == base version"
 }
 
@@ -392,6 +395,9 @@ func C13Configs(thorough bool) []*world.Config {
 	tgc.Name = "tagged/" + tgc.Name
 	cfgs = append(cfgs, tgc)
 	cfgs = append(cfgs, TaggedCached(6, 2))
+	// two trees of one persisted version over one warm cache: what one of them does must not make the other
+	// write (or look modified)
+	cfgs = append(cfgs, SharedCacheSeeded(B, 4), SharedCacheSeededSplit(M, 4))
 	cfgs = append(cfgs, world.WithTwoSlots(world.UintCfg(2, ulist(1, 2, 3, 4), 1, B, "none"), 5))
 	cfgs = append(cfgs, world.WithTwoSlots(world.UintCfg(2, ulist(1, 2, 4), 1, M, "big"), 5))
 	cfgs = append(cfgs, world.WithFlushFaults(world.UintCfg(2, urange(1, 4), 1, B, "none")))
